@@ -207,9 +207,16 @@ def join(a, b):
             return ("int", None, a[2])
         return ("int", None)
     if ka == "coll":
-        tags = (a[3] | b[3]) - {"ne"}
-        if "ne" in a[3] and "ne" in b[3]:
-            tags = tags | {"ne"}          # 'known to be non-empty' is a must-property: it survives a join only if both sides have it
+        must = lambda x: x == "ne" or (isinstance(x, tuple) and x and x[0] == "total")
+        # 'known to be non-empty' / 'holds exactly what this iterator yields' are must-properties: they survive a join only if
+        # both sides have them
+        tags = frozenset(x for x in (a[3] | b[3]) if not must(x)) | frozenset(x for x in a[3] if must(x) and x in b[3])
+        ta = [x for x in a[3] if isinstance(x, tuple) and x and x[0] == "total"]
+        tb = [x for x in b[3] if isinstance(x, tuple) and x and x[0] == "total"]
+        if len(ta) == 1 and len(tb) == 1 and ta[0] != tb[0]:
+            jt = join_tmpl(ta[0][1], tb[0][1])       # the same source seen with different role sets
+            if jt is not None and jt[0] == ta[0][1][0]:
+                tags = tags | {("total", jt)}
         return ("coll", join(a[1], b[1]), join(a[2], b[2]), frozenset(tags))
     if ka == "iter":
         t = join_tmpl(a[1], b[1])
@@ -232,6 +239,10 @@ def join_tmpl(x, y):
         return join_tmpl(x[1], y)
     if isinstance(y, tuple) and y and y[0] == "fresh" and not (isinstance(x, tuple) and x and x[0] == "fresh"):
         return join_tmpl(x, y[1])
+    if isinstance(x, tuple) and isinstance(y, tuple) and x and y and {x[0], y[0]} == {"nbr", "av"}:
+        # the neighbours of a job enumerated directly on one path and out of a local collection on the other
+        n_, a_ = (x, y) if x[0] == "nbr" else (y, x)
+        return ("av", join(a_[1], ("key", None, frozenset([("via", frozenset([("nbr", n_[1], n_[3])]))]), None)))
     if not (isinstance(x, tuple) and isinstance(y, tuple)) or len(x) != len(y) or x[0] != y[0]:
         return None
     out = [x[0]]
